@@ -1,6 +1,6 @@
 #!/bin/bash
 # sweep_mutants.sh : run every seeded mutant through the diff-based detection and record the outcome.
-declare -A PROF=( [C01]=str [C02]=list [C03]=set [C04]=hash [C05]=zset [C06]=key,mixed [C10]=expiry,mixed [C11]=mixed,txmix [C12]=refuse,mixed,txmix [C16]=scan [C17]=binary [C18]=glob [C19]=mixed,key,zset,list,str )
+declare -A PROF=( [C01]=str [C02]=list [C03]=set [C04]=hash [C05]=zset [C06]=key,mixed [C10]=expiry,expcoll,mixed [C11]=mixed,txmix,zset,list [C12]=refuse,mixed,txmix [C16]=scan [C17]=binary [C18]=glob [C19]=mixed,key,zset,list,str )
 out=/verif/seeded/SWEEP.txt
 : > $out
 for d in ${@:-/verif/seeded/C*-m*}; do
